@@ -339,4 +339,14 @@ example : ∃ down dbO dbN, modelDown { ignoreOrder := true } C01.exOldW C01.exN
     execAll true [] C01.exNewW = some dbN ∧ (c02 true dbO dbN down false).toOption = some () :=
   ⟨_, _, _, by rfl, by rfl, by rfl, by decide⟩
 
+open Sqlize.Spec in
+/-- the down migration of a whole schema against an empty history drops it: executed on the schema the script describes,
+    it is well-formed at every step and ends in the empty schema (the theorem above with nothing on the old side) -/
+theorem down_of_a_whole_schema (g : Globals) (hg : g.dialect = .mysql) (rc : Bool) (ss : List Stmt) (db : Spec.DB)
+    (hs : ss.all Stmt.elemSafe = true) (hp : ss.all Stmt.plainOpts = true) (he : execAll rc [] ss = some db)
+    (hdef : ∀ tb ∈ db, tb.name ≠ Migration.defaultMigrationTable) :
+    ∃ dn, modelDown g [] ss = .ok dn ∧ c02 g.ignoreOrder [] db dn false = .ok () :=
+  schema_down_any g hg rc [] ss [] db rfl hs rfl hp rfl he (fun tb htb => hdef tb (by simpa using htb))
+    (fun a ha => (by cases ha))
+
 end Sqlize.C02
